@@ -8,6 +8,7 @@ import (
 	"crypto/tls"
 	"crypto/x509"
 	"crypto/x509/pkix"
+	"io"
 	"math/big"
 	"net"
 	"net/http"
@@ -86,14 +87,7 @@ func startProxy(handler bool) (*proxyRig, error) {
 		}
 		return nil, nil
 	}
-	cfg.ConnectFunc = func(req *http.Request) (*http.Response, interface {
-		Read([]byte) (int, error)
-		Write([]byte) (int, error)
-		Close() error
-	}, error) {
-		return nil, nil, forwarder.ErrConnectFallback
-	}
-	cfg.ConnectFunc = func(req *http.Request) (*http.Response, ioRWC, error) {
+	cfg.ConnectFunc = func(req *http.Request) (*http.Response, io.ReadWriteCloser, error) {
 		sc := reg.get(req.URL.Host)
 		if sc == nil || sc.Mode != "connectfunc" {
 			return nil, nil, forwarder.ErrConnectFallback
